@@ -7,7 +7,7 @@ class Equivalence:
     if name:
       return name.__hash__()
     else:
-      return NotImplemented
+      return object.__hash__(self)
 
   def __eq__(self, o):
     """
